@@ -327,6 +327,18 @@ fn main() {
             let fec = if parity == 0 { Fec::NoCode } else { Fec::Rs28 };
             let olen = nsym * e as usize - rng.below(e as u64) as usize;
             let mut o = ObjSpec::new(gen_bytes(&mut rng, olen), "file:///p/0");
+            // one case in four: the object travels content-encoded and compresses well - the pacing speaks of the packets
+            // that are SENT (transfer length), not of the size of the content
+            if rng.chance(1, 4) {
+                let mut d = vec![b'a'; nsym * e as usize * 6];
+                for (k, x) in d.iter_mut().enumerate() {
+                    if k % 97 == 0 {
+                        *x = (k / 97) as u8;
+                    }
+                }
+                o = ObjSpec::new(d, "file:///p/0");
+                o.cenc = *rng.pick(&[CencSpec::Gzip, CencSpec::Zlib, CencSpec::Deflate]);
+            }
             o.oti = Some(OtiSpec::new(fec, e, 5, parity));
             let deadline = rng.chance(1, 3);
             let start_off = *rng.pick(&[0u64, 0, 500_000]);
